@@ -5,7 +5,7 @@ CFG = {
     "props": ["EraVerif.Props.C19"],
     "required_theorems": [
         "request_never_lost", "stays_requested", "failed_hold_is_offered_again", "single_holder",
-        "insert_never_overrides", "map_entries_are_live_requests",
+        "insert_never_overrides", "insert_unwrap_never_panics", "map_entries_are_live_requests",
         "accepted_only_if_announced_and_sampled_minimum", "accept_removes_atomically",
         "sample_current_or_wakeup_pending", "watched_is_current_minimum",
         "accept_may_overtake_concurrent_lower_request",
